@@ -24,6 +24,12 @@ def pool_factories(ana) -> Set[str]:
                 r = ana.res.fq_of_expr(fi, n.value.func)
                 if r and r[1] in POOL_CTORS:
                     out.add(fi.qualname)
+            elif isinstance(n, ast.Return) and isinstance(n.value, ast.Name):
+                # pool = Pool(...); return pool  - every binding of the returned local is a constructor call
+                defs = [a for a in Resolver.walk_own(fi.node) if isinstance(a, ast.Assign) and any(isinstance(t, ast.Name) and t.id == n.value.id for t in a.targets)]
+                if defs and all(isinstance(a.value, ast.Call) and (ana.res.fq_of_expr(fi, a.value.func) or (None, None))[1] in POOL_CTORS for a in defs) \
+                        and n.value.id not in fi.own_params:
+                    out.add(fi.qualname)
     return out
 
 
